@@ -510,7 +510,7 @@ func buildEncs(kind string, orig []byte, c chooser, excl func(string) bool) ([]E
 	return out, nil
 }
 
-const rule = "for each of the 39 transaction kinds (33 native / OLVM and the six of the bid application) (OLVM: transfers and message calls, including calls that fail inside the EVM by revert / out of gas and are committed as executed): a well-formed transaction executed in a block of a warmed-up state, then resubmitted 1..10 blocks later (occasionally 40..120; further resubmissions in the following blocks, the byte-identical one twice) byte-identical and under 18 re-encoding operators that keep the parsed signed content (whitespace, key order, duplicate keys, unknown members, key case, key / string escapes, base64 line breaks and trailing bits, numeric forms) and 6 operators that alter the unsigned signature list in a canonical encoding (appended: copy of the first entry, junk, a valid signature of a foreign key, an empty entry; the first signer's key bytes behind an amino prefix / five arbitrary bytes; OLVM additionally 8 inner-payload / memo / signer-entry variants of the same EIP-155 content with a canonical outer encoding); every resubmission is classified with the parser (equivalent or not); oracle: CheckTx rejects and the block carrying it leaves the committed state equal to the twin's; non-trivial = the original succeeded with an effect beyond the fee (probe replica) and the resubmitted bytes differ from the original; distinct by (kind, operator)"
+const rule = "for each of the 39 transaction kinds (33 native / OLVM and the six of the bid application) (OLVM: transfers and message calls, including calls that fail inside the EVM by revert / out of gas and are committed as executed): a well-formed transaction executed in a block of a warmed-up state, then resubmitted 1..10 blocks later (occasionally 40..120; further resubmissions in the following blocks, the byte-identical one twice) byte-identical and under 19 re-encoding operators that keep the parsed signed content (whitespace, key order, duplicate keys, unknown members, members the repository's envelope type declares but its writer left out, key case, key / string escapes, base64 line breaks and trailing bits, numeric forms) and 6 operators that alter the unsigned signature list in a canonical encoding (appended: copy of the first entry, junk, a valid signature of a foreign key, an empty entry; the first signer's key bytes behind an amino prefix / five arbitrary bytes; OLVM additionally 8 inner-payload / memo / signer-entry variants of the same EIP-155 content with a canonical outer encoding); every resubmission is classified with the parser (equivalent or not); oracle: CheckTx rejects and the block carrying it leaves the committed state equal to the twin's; non-trivial = the original succeeded with an effect beyond the fee (probe replica) and the resubmitted bytes differ from the original; distinct by (kind, operator)"
 
 func TestC05(t *testing.T) {
 	h := run.Start(t, "C05")
